@@ -564,9 +564,10 @@ class XPathContext:
                         root = root.parent
                         ancestors.add(root)
 
+                    position = item.position
                     for self.item in root.iter_descendants():
-                        if self.item is item:
-                            break
+                        if self.item is item or self.item.position > position:
+                            break  # attribute and namespace nodes are not met as descendants
                         if self.item not in ancestors:
                             yield self.item
 
